@@ -31,6 +31,7 @@ type udpOp struct {
 	PSeed   int      `json:"pseed,omitempty"`
 	Replies [][2]int `json:"replies,omitempty"`
 	N       int      `json:"n,omitempty"`
+	Port0   bool     `json:"port0,omitempty"` // destination port 0: the kernel refuses the send (EINVAL)
 }
 type udpCaseSpec struct {
 	Cfg      []cfgKey `json:"cfg"`
@@ -210,12 +211,15 @@ func runUDPCase(cs *udpCaseSpec) (obs []udpOpObs, tports []int, fatal string, sh
 		defer pc.Close()
 	}
 	portIdx := map[int]int{}
+	nextIdx := 0 // sockets the kernel has handed out to associations so far
+	pendingIdx := map[int]int{} // client -> socket index of an association whose first send failed (its port is not known yet)
 	for i := range cs.Ops {
 		op := &cs.Ops[i]
 		var ob udpOpObs
 		mark := rec.count()
 		if op.Kind == "expire" {
 			time.Sleep(udpNatTimeout + 400*time.Millisecond)
+			pendingIdx = map[int]int{} // every association is gone, also those that never sent
 			for _, e := range rec.snapshot(mark) {
 				if e.Kind == "remove" {
 					ob.Removed++
@@ -227,6 +231,9 @@ func runUDPCase(cs *udpCaseSpec) (obs []udpOpObs, tports []int, fatal string, sh
 		key := mkKey(op.C, op.S)
 		var pkt []byte
 		tport := tports[op.AKind]
+		if op.Port0 {
+			tport = 0
+		}
 		payload := genBytes(op.PLen, uint32(op.PSeed))
 		switch op.Kind {
 		case "garbage":
@@ -300,7 +307,13 @@ func runUDPCase(cs *udpCaseSpec) (obs []udpOpObs, tports []int, fatal string, sh
 			ob.Payload = m.payload
 			ob.SrcPort = m.src.Port
 			if _, ok := portIdx[m.src.Port]; !ok {
-				portIdx[m.src.Port] = len(portIdx)
+				if idx, pend := pendingIdx[op.Client]; pend {
+					portIdx[m.src.Port] = idx // the association created by the failed send shows its socket now
+					delete(pendingIdx, op.Client)
+				} else {
+					portIdx[m.src.Port] = nextIdx
+					nextIdx++
+				}
 			}
 			ob.SockIdx = portIdx[m.src.Port]
 			var recv [][]byte
@@ -375,6 +388,12 @@ func runUDPCase(cs *udpCaseSpec) (obs []udpOpObs, tports []int, fatal string, sh
 				ob.Removed++
 			}
 		}
+		if ob.NewKey != nil && !ob.Forwarded {
+			// an association was created but its first datagram never left (the send failed): the
+			// kernel handed out a socket all the same; keep its place in the numbering
+			pendingIdx[op.Client] = nextIdx
+			nextIdx++
+		}
 		ob.Unreported = len(ob.recv) - ri
 		// stray datagrams at other clients
 		for j, oc := range clients {
@@ -437,7 +456,11 @@ func udpOpTerm(op *udpOp, tports []int) string {
 		for _, r := range op.Replies {
 			rs = append(rs, fmt.Sprintf("(%d, %d)", r[0], r[1]))
 		}
-		k = fmt.Sprintf("DHonest %d %d %d %d %d %d %d %s", op.C, op.S, op.Seed, op.AKind, tports[op.AKind], op.PLen, op.PSeed, cListT("(N * N)", rs))
+		tp := tports[op.AKind]
+		if op.Port0 {
+			tp = 0
+		}
+		k = fmt.Sprintf("DHonest %d %d %d %d %d %d %d %s", op.C, op.S, op.Seed, op.AKind, tp, op.PLen, op.PSeed, cListT("(N * N)", rs))
 	}
 	cip := []int{1, 1, 2, 3, 4}[op.Client]
 	return fmt.Sprintf("ODgram %d %d (%s)", op.Client+1, cip, k)
